@@ -19,7 +19,8 @@
 (*   MahaMismatch mat, x, y, status -> MahaMismatchOK                       *)
 (*   Expect       an input enumerated by TLC from DistancesMC, the model's  *)
 (*                interval [lo,hi] for round(d 2^S) (or "must panic"), and  *)
-(*                what the real code returned                               *)
+(*                what the real code returned -> ExpectOK (closed form at   *)
+(*                fixed-point resolution, recomputed from the definition)   *)
 (***************************************************************************)
 EXTENDS Distances, TLC, Json, IOUtils
 
@@ -31,17 +32,27 @@ vars == <<l, nbad, hits>>
 HitNames == {"Dist_man", "Dist_euc", "Dist_mink", "Dist_ham", "Dist_hami", "F32", "Scaled", "EqualArgs",
              "TriangleTight", "Mink1", "Mink2", "Unfit", "Mismatch",
              "Maha_cov", "Maha_data", "Maha_identity", "Maha_unconstrained", "Maha_skipped", "Maha_f32",
-             "MahaMismatch", "Expect", "ExpectPanic"}
+             "MahaMismatch", "Expect", "ExpectPanic", "ModelMismatch"}
 
 HitAll(S) == [h \in HitNames |-> hits[h] + (IF h \in S THEN 1 ELSE 0)]
 
-(* spec -> impl return leg: the interval comes from the design model; an f32 result is the
-   same real number rounded to 24 bits, which moves round(d 2^S) by at most one more unit *)
+(* spec -> impl return leg.  The closed form at fixed-point resolution, recomputed here from
+   the definition: floor(d 2^S) for the exact d; the real code rounds to nearest, so
+   round(d 2^S) lies in [floor, floor + 1].  An f32 result is the same real number rounded to
+   24 bits, which moves round(d 2^S) by at most one more unit.  The interval printed by the
+   design model must be this very interval (otherwise the model is wrong: ModelMismatch). *)
+FloorFx(kind, p, x, y, S) ==
+    IF IsHamming(kind) THEN (HamCount(x, y) * Pow2(S)) \div Len(x)
+    ELSE LET P == PowerOf(kind, p) IN FloorRoot(PowSum(x, y, P) * Pow2(P * S), P)
+
 ExpectOK(e) ==
-    IF e.expectPanic THEN e.status = "panic"
-    ELSE /\ e.status = "ok" /\ e.out.ok
-         /\ e.lo - (IF e.prec >= 50 THEN 0 ELSE 1) <= e.out.fx
-         /\ e.out.fx <= e.hi + (IF e.prec >= 50 THEN 0 ELSE 1)
+    IF Len(e.x) # Len(e.y) THEN e.status = "panic"
+    ELSE LET lo == FloorFx(e.kind, e.p, e.x, e.y, e.S)
+             w == IF e.prec >= 50 THEN 0 ELSE 1
+         IN  e.status = "ok" /\ e.out.ok /\ lo - w <= e.out.fx /\ e.out.fx <= lo + 1 + w
+ExpectModelAgrees(e) ==
+    IF Len(e.x) # Len(e.y) THEN e.expectPanic
+    ELSE ~e.expectPanic /\ e.lo = FloorFx(e.kind, e.p, e.x, e.y, e.S) /\ e.hi = e.lo + 1
 
 DistHits(e) ==
     {"Dist_" \o e.kind}
@@ -79,7 +90,8 @@ Step ==
          [] e.ev = "MahaMismatch" ->
               Judge(e, IF MahaMismatchOK(e) THEN "" ELSE "RejectsLengthNotMatchingCovariance", {"MahaMismatch"})
          [] e.ev = "Expect" ->
-              Judge(e, IF ExpectOK(e) THEN "" ELSE "ModelInterval", {IF e.expectPanic THEN "ExpectPanic" ELSE "Expect"})
+              Judge(e, IF ExpectOK(e) THEN "" ELSE IF Len(e.x) # Len(e.y) THEN "RejectsDifferentLengths" ELSE "ClosedFormFixedPoint",
+                    {IF e.expectPanic THEN "ExpectPanic" ELSE "Expect"} \cup (IF ExpectModelAgrees(e) THEN {} ELSE {"ModelMismatch"}))
          [] OTHER -> Judge(e, "unknown event", {})
 
 Init == l = 1 /\ nbad = 0 /\ hits = [h \in HitNames |-> 0]
